@@ -123,7 +123,10 @@ Definition ps_at (s : pset) (i : nat) : option (option elem) :=
     end
   else Some None.
 
-Definition ps_insert (s : pset) (what : elem) : option (pset * out) :=
+(* [fixed = true]: the code since commit 5f81ca8 (after growing: where = _arr + wptr, the iterator points
+   into the new block); [fixed = false]: the original routine, which returned the pointer into the block it
+   had just deleted -- kept for the refutation witness only. *)
+Definition ps_insert_gen (fixed : bool) (s : pset) (what : elem) : option (pset * out) :=
   if p_sz s =? 0 then
     (* _arr = new T[_rsz]; memcpy(_arr, what, sizeof(T)); ++_sz; return result(_arr, true); *)
     match p_hash s with
@@ -162,7 +165,9 @@ Definition ps_insert (s : pset) (what : elem) : option (pset * out) :=
              if (wptr > 0) memcpy(new_arr, _arr, sizeof(T) * wptr);
              memcpy(new_arr + wptr, what, sizeof(T));
              memcpy(new_arr + wptr + 1, where, (end() - where) * sizeof(T));
-             delete[] _arr; _arr = new_arr;   ...   return result(where, true)  -- where: old block *)
+             delete[] _arr; _arr = new_arr;
+             where = _arr + wptr;      (since 5f81ca8; without it where still points into the old block)
+             ...   return result(where, true) *)
           let rsz' := p_sz s + calc_reserve (p_sz s) (p_reserve s) in
           let new_arr := repeat junk rsz' in
           match (if 0 <? w then
@@ -181,13 +186,16 @@ Definition ps_insert (s : pset) (what : elem) : option (pset * out) :=
               | Some post =>
                 match write_at n2 (w + 1) post with
                 | None => None
-                | Some n3 => Some (upd s n3 (p_sz s + 1) rsz', RInsert true (Some w) true)
+                | Some n3 => Some (upd s n3 (p_sz s + 1) rsz', RInsert true (Some w) (negb fixed))
                 end
               end
             end
           end
       end
     end.
+
+Definition ps_insert := ps_insert_gen true.
+Definition ps_insert_orig := ps_insert_gen false.
 
 (* for (ptr = what_begin; ptr < what_end; ++ptr) if (!insert(ptr).second) break; *)
 Fixpoint ps_insert_range (s : pset) (es : list elem) : option pset :=
